@@ -13,6 +13,18 @@ well-formedness predicate `Merge.wfForest` (`LyModel/Merge/Wf.lean`: node kinds 
 sibling order, unique instances, default flags consistent downwards) — the driver evaluates that predicate on every
 generated tree (op `wf`).  Helper lemmas live in `LyModel/Merge/Lemmas*.lean`.
 
+| theorem                         | statement                                                                    | trees          |
+|---------------------------------|------------------------------------------------------------------------------|----------------|
+| `merge_into_empty` (+`_eq_dup`) | merge into the empty target = copy of the source = `lyd_dup_siblings` + NEW   | all wf         |
+| `merge_destruct_eq_copy`        | moving (`LYD_MERGE_DESTRUCT`) and copying give the same tree; `_fails` without consistent flags | all (flags ok) |
+| `merge_idempotent_partial`      | merging the same source again changes nothing                                | source without key-less list / state leaf-list instances (full statement OPEN) |
+| `merge_contains_source`         | every source node is found by its path, explicit leaves with the source's value | same fragment |
+| `merge_keeps_untouched_target`  | a target node whose path the source does not contain is unchanged            | same fragment  |
+| `merge_result_canonical`, `merge_result_canon_fixpoint`, `merge_result_wf` | the result is well-formed again (shape, order, uniqueness, flags) | all wf |
+| `dup_equal_recursive`, `_content`, `_with_flags`, `dup_no_meta`, `dup_shallow` | a duplicate is the original relabelled as the options say | all (flags ok) |
+| `dup_with_parents`              | the chain of ancestors with their keys and only the path to the node         | all            |
+| `dup_siblings_equal`, `dup_siblings_full` | `lyd_dup_siblings` = the duplicates in order, whatever insert order is used | all wf |
+
 The *independence* half of C14 (no shared mutable state) is aliasing, which a pure model cannot exhibit: it is a
 sanitised law check on the implementation (`tools/checks/c14.py`, ops `indep` / `dlaw`), not a theorem.
 -/
@@ -113,6 +125,13 @@ example : wfForest exS exT = true ∧ wfForest exS exSrc = true ∧ noDupInstL e
 -- repeated instances, exhaustively for all sequences over two values up to length 2 / 4); the proof needs the cache
 -- invariant ("the k-th source instance of a class is matched with / created as the k-th target instance of the class")
 -- carried through both merges and is not done.
+--
+-- OPEN: merge_contains_source / merge_keeps_untouched_target for sources with such instances: an instance of a
+-- key-less list / state leaf-list has no path (libyang prints a position); the corresponding statement — the result
+-- holds, per class of equal instances, max(#target, #source) of them, the first #target being the target's — needs the
+-- same cache invariant.  Laws `contains` / `keeps` skip nodes in or below such instances; the model/implementation
+-- correspondence covers them (state leaf-lists with repeated values and key-less lists in every generated schema with
+-- state data, plus the exhaustive sequences).
 -/
 
 /-! ## the result contains the source -/
